@@ -9,7 +9,7 @@ import sys
 
 from harness import core
 from harness.core import Atom
-from harness.gen.c30_templates import ADDRESS_TEMPLATES, NAMES, TGen
+from harness.gen.c30_templates import ADDRESS_TEMPLATES, TGen, const_fold_templates
 from translate import set_iter_sites as tr_sites
 
 ID = "C30"
@@ -18,7 +18,7 @@ LEAN_MODULES = ["JinjaV.Props.C30", "JinjaV.Props.C30Sites"]
 LEVEL = "proof"
 TRUSTED = [
     "translator translate/set_iter_sites.py: static set typing is intra-procedural plus attribute/return types over "
-    "compiler.py, idtracking.py, ext.py, parser.py, nodes.py, meta.py, optimizer.py; a set that reaches an iteration through "
+    "compiler.py, idtracking.py, ext.py, parser.py, nodes.py, meta.py, optimizer.py, filters.py, tests.py, utils.py; a set that reaches an iteration through "
     "an untyped parameter or another module is not seen (the hash-seed experiment is the net for those)",
     "Model/Symbols.lean is a hand transcription of idtracking.Symbols and of enter_frame/leave_frame/dump_local_context/"
     "pop_assign_tracking/pull_dependencies, tied by the L-unit/L-code correspondence of this run; the rest of the code "
@@ -28,6 +28,7 @@ TRUSTED = [
 ]
 ASSUMPTIONS = ["names are identifiers (repr(name) is the name in single quotes)",
                "extensions other than the bundled ones are outside the inventory"]
+# keys of the two defects this check found (both fixed in /repo: 73a6db1, df6ea54); a regression is reported under the same key
 KNOWN_KEY = "C30:set-iteration:ext.i18n.parse:referenced"
 ADDRESS_KEY = "C30:folded-object-address"
 CLAIM = dict(
@@ -43,17 +44,19 @@ CLAIM = dict(
          "key of the ordered loads dict); dump_local_context, pop_assign_tracking (unsorted comprehension, next(iter()), "
          "sorted loop) and pull_dependencies emit the same lines (dump_stores/pop_assign/pull_deps_order_independent); hence "
          "cg_order_independent for whole frame trees. Props/C30Sites.lean: set_sites_covered — every iteration over a "
-         "statically set-typed expression in compiler/idtracking/ext/parser/nodes/meta/optimizer (read from the source on "
-         "every run) is sorted, structurally order-insensitive, or one of three allow-listed sites (the modelled "
-         "branch_update loop, the lookup-only parser tag table, and the KNOWN DEFECT in ext.i18n.parse); a new unsorted "
-         "iteration breaks the proof. trans_kwargs_order_dependent proves the {% trans %} statement false in the model "
-         "(finding F11). Tie: random symbol programs on the real Symbols (refs/loads ordered, stores as sets) and frame "
+         "statically set-typed expression in compiler/idtracking/ext/parser/nodes/meta/optimizer and in filters/tests/utils (filters "
+         "and tests run at compile time under constant folding) (read from the source on "
+         "every run) is sorted, structurally order-insensitive, or one of two allow-listed sites (the modelled "
+         "branch_update loop and the lookup-only parser tag table); a new unsorted iteration breaks the proof (the former "
+         "set iteration in ext.i18n.parse, fixed by 73a6db1, would reappear as an uncovered site). Tie: random symbol programs on the real Symbols (refs/loads ordered, stores as sets) and frame "
          "programs on the real CodeGenerator vs the model; every generated template (tuple unpacking, branch stores, loops, "
-         "imports, macros with caller/varargs/kwargs, filters/tests, namespaces, blocks, call blocks, trans blocks) compiled "
+         "imports, macros with caller/varargs/kwargs, filters/tests, namespaces, blocks, call blocks, trans blocks) and every "
+         "registered filter and test applied to 12 constant operands with its argument combinations (folded at compile time) compiled "
          "raw under 4/16 hash seeds in subprocesses and twice in one process, in six environment configurations.",
     note="Trusted: Lean kernel; translator's set typing (intra-procedural); hand model tied by correspondence; the "
          "expression/statement visitors of the generator are covered by the inventory and the experiment, not by the model. "
-         "Known finding: {% trans %} keyword order depends on PYTHONHASHSEED (ext.py:434).",
+         "Two defects found by this check are fixed in /repo (73a6db1 trans variable order, df6ea54 folded object text); their "
+         "template families stay in the experiment as regression probes.",
     design_ref="§5 C30",
 )
 
@@ -281,45 +284,6 @@ def run_model_tie(ctx, res, jinja2, cov):
     return n_sym + n_cg, len(distinct)
 
 
-def run_trans_tie(ctx, res, jinja2, cov):
-    """the defect model (transVariables) against the real parser, using the iteration order the real set has in THIS process"""
-    from jinja2 import nodes
-
-    rng = ctx.rng("trans")
-    env = jinja2.Environment(extensions=["jinja2.ext.i18n"])
-    env.install_null_translations(newstyle=True)
-    reqs, reals = [], []
-    for _ in range(ctx.pick(40, 300)):
-        explicit = rng.sample(NAMES, rng.randrange(0, 3))
-        free = rng.sample(NAMES, rng.randrange(1, 6))
-        plural = rng.sample(NAMES, rng.randrange(0, 3)) if rng.random() < 0.4 else None
-        src = "{%% trans %s %%}%s" % (", ".join("%s=1" % n for n in explicit), " ".join("{{ %s }}" % n for n in free))
-        if plural is not None:
-            src += "{% pluralize %}" + " ".join("{{ %s }}" % n for n in plural)
-        src += "{% endtrans %}"
-        try:
-            call = next(env.parse(src).find_all(nodes.Call))
-        except jinja2.TemplateError:
-            continue
-        real = [k.key for k in call.kwargs]
-        s = set()
-        s.update(free)
-        if plural is not None:
-            s.update(plural)
-        reqs.append([Atom("c30-trans"), [Atom("explicit")] + list(s), explicit, sorted(s)])
-        reals.append((src, real))
-    agree = 0
-    for (src, real), rep in zip(reals, core.driver_batch(reqs)):
-        model = canon(rep[1])
-        if "num" in model and "num" not in real:
-            model.remove("num")
-        agree += model == real
-    cov["trans_defect_model"] = {"cases": len(reals), "model_predicts_real_keyword_order": agree,
-                                 "note": "informational: ties Lean's transVariables (the F11 witness) to ext.py:434; a mismatch "
-                                         "means the site changed (e.g. was fixed), the experiment below decides"}
-    return len(reals)
-
-
 # ----------------------------------------------------------------------------------------------------------------
 # the property's own experiment: compile under several hash seeds
 # ----------------------------------------------------------------------------------------------------------------
@@ -342,8 +306,8 @@ class MultiTag(Extension):
         return nodes.Output([nodes.Const("<" + tok.value + ">")]).set_lineno(tok.lineno)
 
 class SortedI18n(jinja2.ext.InternationalizationExtension):
-    """attribution aid: the ONLY change is that `variables` reaches _make_node in sorted order, i.e. the effect of the set
-    iteration at ext.py:434 is neutralised"""
+    """attribution aid: the ONLY change is that `variables` reaches _make_node in sorted order, i.e. any dependence on the
+    order in which InternationalizationExtension.parse registers the free names of the body is neutralised"""
     def _make_node(self, singular, plural, context, variables, *a, **kw):
         return super()._make_node(singular, plural, context, dict(sorted(variables.items())), *a, **kw)
 
@@ -379,6 +343,9 @@ envs, out = {}, []
 for it in items:
     env = envs.get(it["cfg"]) or envs.setdefault(it["cfg"], make(it["cfg"]))
     a = comp(env, it["src"])
+    if it.get("once"):      # constant-folding family: hash-seed comparison only
+        out.append({"src": a, "b": None, "c": None, "alt": None})
+        continue
     b = comp(env, it["src"])
     c = comp(make(it["cfg"]), it["src"])
     alt = None
@@ -451,7 +418,7 @@ def gen_items(ctx, n):
         for k, v in g.hit.items():
             hits[k] = hits.get(k, 0) + v
         items.append({"cfg": cfg, "src": src, "family": "grammar"})
-    # fixed members of the families with a known finding (so that it is reported on every run while it exists)
+    # fixed members of the two families in which this check found defects (fixed in /repo): regression probes
     items.append({"cfg": "i18n-old", "family": "grammar",
                   "src": "{% trans %}{{ alpha }} {{ beta }} {{ gamma }} {{ delta }} {{ eps }}{% endtrans %}"})
     items.append({"cfg": "i18n-new", "family": "grammar",
@@ -462,6 +429,14 @@ def gen_items(ctx, n):
                          "{% from 'lib' import phi, chi as _psi, omega %}"})
     for j, src in enumerate(ADDRESS_TEMPLATES):
         items.append({"cfg": ["plain", "auto", "async"][j % 3], "src": src, "family": "address"})
+    # every registered filter / test on constant operands (folded at compile time): exhaustive over the registry, both tiers
+    from jinja2.filters import FILTERS
+    from jinja2.tests import TESTS
+    folds = const_fold_templates(FILTERS, TESTS)
+    for j, (kind, name, src) in enumerate(folds):
+        for cfg in (("plain", "auto")[j % 2],) if ctx.quick else ("plain", "auto"):
+            items.append({"cfg": cfg, "src": src, "family": f"constfold:{kind}:{name}", "once": True})
+    hits["const-fold-templates"] = len(folds) * (1 if ctx.quick else 2)
     return items, hits
 
 
@@ -471,13 +446,15 @@ def classify(it, a, b, alt_equal):
         return ADDRESS_KEY
     if it["cfg"].startswith("i18n") and alt_equal:
         return KNOWN_KEY
+    if it["family"].startswith("constfold:"):
+        return "C30:folded-constant:" + it["family"].split(":", 1)[1]
     return None
 
 
 def run_experiment(ctx, res, cov, boost):
     rng = ctx.rng("seeds")
     nseeds = ctx.pick(4, 16)
-    ntempl = ctx.pick(150, 900) * boost
+    ntempl = ctx.pick(120, 900) * boost
     seeds = [0] + sorted(rng.sample(range(1, 2 ** 32 - 1), nseeds - 1))
     items, hits = gen_items(ctx, ntempl)
     results = compile_batches(items, seeds)
@@ -489,11 +466,15 @@ def run_experiment(ctx, res, cov, boost):
             explained[key] = explained.get(key, 0) + 1
         if key == KNOWN_KEY:
             res.violate(key, "{% trans %} block: " + what + "; the difference disappears when `variables` reaches _make_node in "
-                             "sorted order; cause ext.py:434 `for name in referenced` over a set", replay)
+                             "sorted order: InternationalizationExtension.parse registers the free names of the body in a hash-seed "
+                             "dependent order again (regression of 73a6db1)", replay)
         elif key == ADDRESS_KEY:
             res.violate(key, what + "; the sources are equal once hexadecimal object addresses are masked: the optimizer folded a "
                              "constant expression through a generator / bound method whose str() holds its memory address "
-                             "(nodes.py _FilterTestCommon.as_const / Getattr.as_const called recursively)", replay)
+                             "(regression of df6ea54, nodes._const_result)", replay)
+        elif key is not None and key.startswith("C30:folded-constant:"):
+            res.violate(key, what + f"; the {key.split(':')[2]} `{key.split(':')[3]}` applied to a constant operand is folded at compile "
+                             "time and its result is not a function of its arguments alone", replay)
         else:
             res.violate(f"C30:hash-seed-difference:{it['cfg']}" if replay["seeds"][0] != replay["seeds"][1]
                         else f"C30:same-process-difference:{it['cfg']}", what, replay)
@@ -535,7 +516,6 @@ def run(ctx, res):
     jinja2 = core.import_jinja()
     cov = {}
     ev1, d1 = run_model_tie(ctx, res, jinja2, cov)
-    ev2 = run_trans_tie(ctx, res, jinja2, cov)
     broken = bool(ctx.proof_broken or ctx.tie_broken)
     if broken:
         # a new / changed set iteration site: name it, and search harder for a template on which it shows
@@ -548,7 +528,7 @@ def run(ctx, res):
     items, ev3 = run_experiment(ctx, res, cov, 3 if broken else 1)
     distinct_templates = len({(i["cfg"], i["src"]) for i in items})
     res.coverage.update({
-        "evaluations": ev1 + ev2 + ev3,
+        "evaluations": ev1 + ev3,
         "distinct_nontrivial": d1 + distinct_templates,
         "rule": "L-unit: random chains of 1-3 frames, each a random program over 8 names of declare_parameter/store/load and "
                 "nested if-branches (three copies + branch_update), real Symbols vs Lean model (refs, loads in dict order; stores, "
@@ -557,7 +537,8 @@ def run(ctx, res):
                 "on the real CodeGenerator vs the model's lines. Experiment: grammar-generated templates (30 names, 35+17 "
                 "filters, 28 tests) in 6 environment configurations, each compiled raw under every hash seed in a subprocess "
                 "(one subprocess per seed), twice in the same environment and once in a fresh one; non-trivial = distinct "
-                "template; plus 7 fixed constant expressions of the folded-address family",
+                "template; plus 9 fixed constant expressions of the folded-address family, fixed many-variable trans blocks, and one "
+                "template per (registered filter, argument combination) and per registered test over 12 constant operands",
         "samples": [items[0], items[1], items[-1]],
         **cov,
     })
